@@ -221,6 +221,14 @@ static void prepare(Prepared &p, const JV &prog_json, const SeedMap *seeds = nul
     p.eb->mode(realtime ? GraphExecutorMode::RealTime : GraphExecutorMode::Simulation);
     if (!realtime || pj.has("start")) p.eb->start_time(abs_t(pj.int_or("start", 0)));
     if (pj.has("end")) p.eb->end_time(abs_t(pj.at("end").as_int()));
+    if (realtime && pj.has("end_in_us")) {
+        const auto now = std::chrono::time_point_cast<std::chrono::microseconds>(engine_clock::now());
+        p.eb->end_time(DateTime{now.time_since_epoch()} + TimeDelta{pj.at("end_in_us").as_int()});
+    }
+    if (realtime && pj.has("start_in_us")) {
+        const auto now = std::chrono::time_point_cast<std::chrono::microseconds>(engine_clock::now());
+        p.eb->start_time(DateTime{now.time_since_epoch()} + TimeDelta{pj.at("start_in_us").as_int()});
+    }
     p.eb->cleanup_on_error(pj.bool_or("cleanup_on_error", true));
     if (pj.has("max_wait_slice_us")) p.eb->max_wait_slice(TimeDelta{pj.at("max_wait_slice_us").as_int()});
     static Obs obs{nullptr};
@@ -405,4 +413,158 @@ std::string handle_batch(const JV &req) {
     return out;
 }
 
+}  // namespace hv
+
+// =====================================================================================================================
+// "realtime": run a real-time program on a runner thread while producer threads and the controller follow a phase
+// script (1 = free running, 2 = consumer latched inside a sink evaluation, 3 = loop idle/waiting, 4 = racing
+// request_stop, 5 = after run() returned).  Everything is logged with a global sequence counter; no oracle here.
+namespace hv {
+namespace {
+std::int64_t wall_us() { return (std::int64_t)std::chrono::duration_cast<std::chrono::microseconds>(std::chrono::steady_clock::now().time_since_epoch()).count(); }
+template <class Pred> bool wait_for(Pred &&p, std::int64_t timeout_us) {
+    const std::int64_t end = wall_us() + timeout_us;
+    while (!p()) { if (wall_us() > end) return false; std::this_thread::sleep_for(std::chrono::microseconds(50)); }
+    return true;
+}
+}  // namespace
+
+std::string handle_realtime(const JV &req) {
+    Prepared p;
+    prepare(p, req.at("prog"));
+    std::string out = "{\"ok\":true";
+    if (!p.error.empty()) { out += ",\"built\":false,\"error\":" + p.error + "}"; return out; }
+    const JV &cfg = req.at("rt");
+    RunCtx ctx;
+    ctx.node_events = p.prog->root.bool_or("node_events", false);
+    std::vector<std::string> clog;  // controller + producer logs (merged at the end)
+    std::mutex clog_mu;
+    auto log = [&](std::string s) { std::lock_guard<std::mutex> l(clog_mu); clog.push_back(std::move(s)); };
+    std::string run_error;
+    std::atomic<bool> run_done{false};
+    std::atomic<std::int64_t> accepted{0};
+    std::atomic<int> phase{0};
+    bool watchdog_ok = true;
+    {
+        g_ctx = &ctx;  // make_executor may start nothing, but keep lifecycle events attributable
+        auto ex = p.eb->make_executor();
+        g_ctx = nullptr;
+        const std::int64_t t_start = wall_us();
+        std::thread runner([&] {
+            g_ctx = &ctx;
+            try { ex.view().run(); } catch (const std::exception &e) { run_error = err_json("run", e); }
+            ctx.add("[\"phase\",\"run_returned\"]");
+            g_ctx = nullptr;
+            run_done.store(true);
+        });
+        const int n_push = (int)cfg.int_or("n_push", 0);
+        const bool senders_ok = wait_for([&] { return ctx.senders_ready.load() >= n_push || run_done.load(); }, 10'000'000);
+        if (!senders_ok) log("[\"ctl\",\"senders_not_ready\"]");
+        // locate push source nodes for pending sampling
+        std::map<std::string, std::size_t> push_idx;
+        try {
+            auto g = ex.view().graph();
+            for (std::size_t i = 0; i < g.node_count(); ++i) { auto n = g.node_at(i); if (n.node_kind() == NodeKind::PushSource) push_idx[std::string{n.label()}] = i; }
+        } catch (...) {}
+        auto sender_of = [&](const std::string &id) -> PushSourceSender * {
+            auto it = ctx.senders.find(id);
+            return it == ctx.senders.end() ? nullptr : static_cast<PushSourceSender *>(it->second.get());
+        };
+        const JV &producers = cfg.at("producers");
+        const std::size_t np = producers.a.size();
+        std::vector<std::atomic<int>> reached(np);
+        for (auto &r : reached) r.store(0);
+        std::vector<std::thread> pth;
+        for (std::size_t pi = 0; pi < np; ++pi) {
+            pth.emplace_back([&, pi] {
+                const JV &steps = producers.a[pi];
+                for (int ph = 1; ph <= 5; ++ph) {
+                    while (phase.load() < ph) std::this_thread::sleep_for(std::chrono::microseconds(20));
+                    for (auto &st : steps.a) {
+                        if (st.at("ph").as_int() != ph) continue;
+                        const std::int64_t d = st.int_or("delay_us", 0);
+                        if (d > 0) std::this_thread::sleep_for(std::chrono::microseconds(d));
+                        const std::string src = st.str_or("src", "ps");
+                        PushSourceSender *s = sender_of(src);
+                        const bool blocking = st.bool_or("blocking", false);
+                        const std::int64_t v = st.at("v").as_int();
+                        const std::int64_t sb = ctx.seq.fetch_add(1) + 1, wb = wall_us();
+                        bool res = false;
+                        std::string exc;
+                        if (s == nullptr) exc = "no sender";
+                        else {
+                            try { res = blocking ? s->send_blocking(Value{Int{v}}) : s->try_send(Value{Int{v}}); }
+                            catch (const std::exception &e) { exc = e.what(); }
+                        }
+                        if (res) accepted.fetch_add(1);
+                        const std::int64_t sa = ctx.seq.fetch_add(1) + 1, wa = wall_us();
+                        std::string pend = "null";
+                        if (res && !run_done.load()) {
+                            auto it = push_idx.find(src);
+                            if (it != push_idx.end()) { try { auto m = ex.view().graph().node_at(it->second).inspection_metrics(); if (m.pending_items) pend = std::to_string(*m.pending_items); } catch (...) {} }
+                        }
+                        log("[\"send\"," + std::to_string(pi) + "," + jq(src) + "," + std::to_string(v) + "," + (blocking ? "true" : "false") + "," + std::to_string(ph) + "," + std::to_string(sb) + "," +
+                            (res ? "true" : "false") + "," + std::to_string(sa) + "," + std::to_string(wb - t_start) + "," + std::to_string(wa - t_start) + "," + pend + "," + (exc.empty() ? "null" : jq(exc)) + "]");
+                    }
+                    reached[pi].store(ph);
+                }
+            });
+        }
+        auto all_reached = [&](int ph) { for (auto &r : reached) if (r.load() < ph) return false; return true; };
+        auto drain = [&](int ph) {
+            if (!cfg.bool_or("count_drain", true)) { std::this_thread::sleep_for(std::chrono::milliseconds(20)); return; }
+            const bool ok = wait_for([&] { return ctx.delivered.load() >= accepted.load() || run_done.load(); }, cfg.int_or("drain_timeout_us", 5'000'000));
+            log("[\"drain\"," + std::to_string(ph) + "," + (ok ? "true" : "false") + "," + std::to_string(ctx.delivered.load()) + "," + std::to_string(accepted.load()) + "," + std::to_string(wall_us() - t_start) + "]");
+        };
+        phase.store(1);
+        wait_for([&] { return all_reached(1); }, 30'000'000);
+        if (cfg.has("latch")) {
+            const JV &l = cfg.at("latch");
+            PushSourceSender *s = sender_of(l.str_or("src", "ps"));
+            bool res = false;
+            const std::int64_t sb = ctx.seq.fetch_add(1) + 1;
+            if (s != nullptr) { try { res = s->send_blocking(Value{Int{l.at("v").as_int()}}); } catch (...) {} }
+            if (res) accepted.fetch_add(1);
+            const std::int64_t sa = ctx.seq.fetch_add(1) + 1;
+            const bool got = res && wait_for([&] { return ctx.latched.load() || run_done.load(); }, 10'000'000);
+            log("[\"latch\"," + std::to_string(l.at("v").as_int()) + "," + std::to_string(sb) + "," + (res ? "true" : "false") + "," + std::to_string(sa) + "," + (got && ctx.latched.load() ? "true" : "false") + "," +
+                std::to_string(ctx.delivered.load()) + "," + std::to_string(accepted.load()) + "]");
+        }
+        phase.store(2);
+        wait_for([&] { return all_reached(2); }, 30'000'000);
+        ctx.release_latch.store(true);
+        log("[\"released\"," + std::to_string(ctx.seq.fetch_add(1) + 1) + "]");
+        drain(2);
+        phase.store(3);
+        wait_for([&] { return all_reached(3); }, 30'000'000);
+        drain(3);
+        phase.store(4);
+        if (cfg.has("stop_after_us")) {
+            const std::int64_t d = cfg.at("stop_after_us").as_int();
+            if (d > 0) std::this_thread::sleep_for(std::chrono::microseconds(d));
+            const std::int64_t sb = ctx.seq.fetch_add(1) + 1, wb = wall_us();
+            ex.view().request_stop();
+            const std::int64_t sa = ctx.seq.fetch_add(1) + 1, wa = wall_us();
+            log("[\"stop_req\"," + std::to_string(sb) + "," + std::to_string(sa) + "," + std::to_string(wb - t_start) + "," + std::to_string(wa - t_start) + "]");
+        }
+        wait_for([&] { return all_reached(4); }, 30'000'000);
+        watchdog_ok = wait_for([&] { return run_done.load(); }, cfg.int_or("watchdog_us", 20'000'000));
+        log("[\"run_done\"," + std::string{watchdog_ok ? "true" : "false"} + "," + std::to_string(wall_us() - t_start) + "," + std::to_string(ctx.seq.fetch_add(1) + 1) + "]");
+        if (!watchdog_ok) { ex.view().request_stop(); ctx.release_latch.store(true); wait_for([&] { return run_done.load(); }, 20'000'000); }
+        runner.join();
+        phase.store(5);
+        for (auto &t : pth) t.join();
+        g_ctx = &ctx;
+    }
+    g_ctx = nullptr;
+    ctx.add("[\"phase\",\"released\"]");
+    out += ",\"built\":true,\"graph\":" + p.graph_json + ",\"trace\":";
+    emit_trace(out, ctx);
+    out += ",\"log\":[";
+    for (std::size_t i = 0; i < clog.size(); ++i) { if (i) out += ','; out += clog[i]; }
+    out += "],\"watchdog_ok\":";
+    out += watchdog_ok ? "true" : "false";
+    out += ",\"error\":" + (run_error.empty() ? std::string{"null"} : run_error) + "}";
+    return out;
+}
 }  // namespace hv
